@@ -52,7 +52,7 @@ def main():
         tb = traceback.extract_tb(e.__traceback__)
         inner = [f for f in tb if os.path.abspath(f.filename).startswith(os.path.abspath(core.REPO) + os.sep)]
         traceback.print_exc()
-        if tb and inner and os.path.abspath(tb[-1].filename).startswith(os.path.abspath(core.REPO) + os.sep):
+        if core.raised_below_code_under_test(tb):
             where = '%s:%s' % (os.path.basename(inner[-1].filename), inner[-1].name)
             try:
                 ctx.violation('unexpected-exception/%s@%s' % (type(e).__name__, where),
